@@ -388,7 +388,7 @@ func c12Child(in c12Input) c12Result {
 		cache.data, _ = json.Marshal(doc)
 	}
 	tick := &c12Ticker{ch: make(chan time.Time), done: make(chan struct{}, 1)}
-	st, err := setec.NewStore(context.Background(), setec.StoreConfig{
+	st, err := newStoreReleased(context.Background(), setec.StoreConfig{
 		Client: svc, Secrets: decl, AllowLookup: true, Cache: cache, ExpiryAge: 10 * time.Second,
 		PollTicker: tick, TimeNow: now, Logf: func(string, ...any) {},
 	})
